@@ -103,6 +103,15 @@ func c02Block(r *Rng, depth int) []*c02N {
 			}
 			out = append(out, &c02N{tag: "table", kids: []*c02N{tb}})
 		case x < 9:
+			if r.Intn(3) == 0 {
+				// elements separated by nothing but white space, and a pre that holds only white space
+				sep := func() *c02N { return &c02N{text: Pick(r, []string{" ", "\n", "\t", "  \n  "})} }
+				out = append(out, &c02N{tag: "pre", kids: []*c02N{{tag: "b", kids: []*c02N{{text: "key"}}}, sep(), {tag: "i", kids: []*c02N{{text: c02Text(r)}}}, sep(), {tag: "b", kids: []*c02N{{text: "k2"}}}}})
+				if r.Bool() {
+					out = append(out, &c02N{tag: "pre", kids: []*c02N{{text: Pick(r, []string{" ", "  \n ", "\t"})}}})
+				}
+				break
+			}
 			out = append(out, &c02N{tag: Pick(r, []string{"pre", "textarea"}), kids: []*c02N{{text: "line1\n  indented " + c02Text(r) + "\nline3"}}})
 		default:
 			out = append(out, &c02N{tag: Pick(r, []string{"script", "style"}), kids: []*c02N{{text: "a < b && c > d; x = \"" + Pick(r, []string{"q", "lorem"}) + "\";"}}})
@@ -149,7 +158,7 @@ func c02Canon(nodes []*html.Node) string {
 			if !keep {
 				t = strings.Join(strings.Fields(t), " ")
 			}
-			if strings.TrimSpace(t) != "" {
+			if strings.TrimSpace(t) != "" || (keep && t != "") { // white space is content inside pre / textarea
 				sb.WriteString("[" + t + "]")
 			}
 		case html.ElementNode:
